@@ -52,12 +52,14 @@ def c03(tier):
 
 
 def c04(tier):
+    # (the reciprocal insertions are not among the calls C04 speaks of; they are exercised by C07/C17)
+    dm_ops = mutators("dm", reciprocal=False)
     if tier == "quick":
-        return [S("dm2", "dm", 2, reps=3, trace=T(12, 150, 6)),
+        return [S("dm2", "dm", 2, ops=dm_ops, reps=3, trace=T(12, 150, 6)),
                 S("um2", "um", 2, reps=3, trace=T(12, 150, 6)),
                 S("um3", "um", 3, mults=(0, 1, 2), maxmult=2, walk=False)]
-    return [S("dm2", "dm", 2, mults=(0, 1, 2, 3), maxmult=4, reps=4, trace=T(150, 250, 8)),
-            S("dm3", "dm", 3, mults=(0, 1, 2), maxmult=2, walk=False, workers=16),
+    return [S("dm2", "dm", 2, ops=dm_ops, mults=(0, 1, 2, 3), maxmult=3, reps=4, trace=T(150, 250, 8)),
+            S("dm3", "dm", 3, ops=dm_ops, mults=(0, 1, 2), maxmult=2, walk=False, workers=16),
             S("um3w", "um", 3, mults=(0, 1, 2), maxmult=2, reps=3, trace=T(150, 250, 8)),
             S("um3", "um", 3, mults=(0, 1, 2, 3), maxmult=3, walk=False, workers=16)]
 
@@ -66,6 +68,8 @@ def c05(tier):
     if tier == "quick":
         return [S("dw2", "dw", 2, reps=3, trace=T(12, 150, 6)),
                 S("uw2", "uw", 2, reps=3, trace=T(12, 150, 6)),
+                # weights one ulp apart (1, 4) and a huge one (5) in the inexact-weight family
+                S("dw2e", "dw", 2, weights="WeightSet5", reps=1), S("uw2e", "uw", 2, weights="WeightSet5", reps=1),
                 S("uw3", "uw", 3, walk=False)]
     return [S("dw2", "dw", 2, weights="WeightSet4", reps=4, trace=T(150, 250, 8)),
             S("dw3", "dw", 3, weights="WeightSet2", walk=False, workers=16),
@@ -94,8 +98,8 @@ def c16(tier):
                 S("dl1f", "dl", 1, ops=_force_ops("dl"), labels=(0, 1), forces=F, maxcopies=2, reps=2, trace=T(3, 100, 5)),
                 S("dl2f", "dl", 2, ops=_force_ops("dl"), labels=(0, 1), forces=F, maxcopies=2, walk=False),
                 S("ul2f", "ul", 2, ops=_force_ops("ul"), labels=(0, 1), forces=F, maxcopies=2, reps=2, trace=T(3, 100, 5)),
-                S("dm2f", "dm", 2, ops=_force_ops("dm"), mults=(1, 2), maxmult=4, forces=F, maxcopies=2, reps=3, trace=tr),
-                S("um2f", "um", 2, ops=_force_ops("um"), mults=(1, 2), maxmult=4, forces=F, maxcopies=2, reps=3, trace=tr),
+                S("dm2f", "dm", 2, ops=_force_ops("dm"), mults=(1, 2), maxmult=3, forces=F, maxcopies=2, reps=3, trace=tr),
+                S("um2f", "um", 2, ops=_force_ops("um"), mults=(1, 2), maxmult=3, forces=F, maxcopies=2, reps=3, trace=tr),
                 S("dw2f", "dw", 2, ops=_force_ops("dw"), forces=F, maxcopies=2, reps=3, trace=tr),
                 S("uw2f", "uw", 2, ops=_force_ops("uw"), forces=F, maxcopies=2, reps=3, trace=tr)]
     tr = T(100, 200, 7)
@@ -105,14 +109,14 @@ def c16(tier):
         if g in ("dl", "ul"):
             kw.update(labels=(0, 1), trace=T(20, 200, 7), reps=2)
         if g in ("dm", "um"):
-            kw.update(mults=(1, 2), maxmult=6)
+            kw.update(mults=(1, 2), maxmult=3)
         out.append(S(g + "2f", g, 2, **kw))
         kw3 = dict(kw)
         kw3.update(walk=False, trace=None, maxcopies=2, workers=16)
         if g in ("dl", "ul"):
             kw3.update(labels=(0, 1))
         if g in ("dm", "um"):
-            kw3.update(mults=(1, 2), maxmult=4)
+            kw3.update(mults=(1, 2), maxmult=3)
         if g in ("un", "ul", "um", "uw") or g == "dn":
             out.append(S(g + "3f", g, 3, **kw3))
     return out
@@ -127,7 +131,7 @@ def c07(tier):
                   invariants=["TypeOK"], properties=["RejectNothing"],
                   trace=T(6 if tier == "quick" else 60, 150, 5))
         if g in ("dl", "ul"):
-            kw.update(labels=(0, 1), trace=T(2 if tier == "quick" else 15, 150, 5), orphan=True)
+            kw.update(labels=(0, 1), trace=T(2 if tier == "quick" else 15, 150, 5))
         if g in ("dm", "um"):
             kw.update(mults=(0, 1, 2), maxmult=3)
         if g in ("dw", "uw"):
@@ -149,7 +153,7 @@ def c06(tier):
             P("dm2", "dm", 2, mults=(0, 1, 2, 3), maxmult=3, reps=3), P("um2", "um", 2, mults=(0, 1, 2, 3), maxmult=3, reps=3),
             P("um3", "um", 3, mults=(0, 1), maxmult=1, walk=False, workers=16),
             P("dw2", "dw", 2, weights="WeightSet3", reps=3), P("uw2", "uw", 2, weights="WeightSet3", reps=3),
-            P("uw3", "uw", 3, weights="WeightSet2", walk=False, workers=16)]
+            P("uw3", "uw", 3, weights="WeightSetH", walk=False, workers=16)]
 
 
 TABLE = {"C06": c06, "C01": c01, "C02": c02, "C03": c03, "C04": c04, "C05": c05, "C16": c16, "C07": c07}
